@@ -717,7 +717,18 @@ func sameValue(a, b ssa.Value) bool {
 		}
 		for _, st := range storesToCell(enclosingRoot(la.Parent()), root) {
 			if st.Parent() != la.Parent() {
-				return false // written by a nested/other function: cannot order
+				// a store in an enclosing function cannot interleave with one invocation of this literal;
+				// a store in a sibling/nested literal may
+				anc := false
+				for p := la.Parent().Parent(); p != nil; p = p.Parent() {
+					if p == st.Parent() {
+						anc = true
+					}
+				}
+				if anc {
+					continue
+				}
+				return false
 			}
 			if instrBetween(la, lb, st) || instrBetween(lb, la, st) {
 				return false
